@@ -373,6 +373,21 @@ def extraction_crosscheck(cases, seed):
     return got
 
 
+TAG_OF_TRAIT = {'PartialEq': 'eq', 'Ord': 'cmp', 'PartialOrd': 'pcmp', 'Hash': 'hash', 'Clone': 'clone', 'Default': 'default', 'Debug': 'debug',
+                'Zeroize': 'zeroize', 'ZeroizeOnDrop': 'drop'}
+
+
+def derived_tags(src):
+    """observation tags of the traits an item's source text requests (for attributing a compile failure of an accepted item)"""
+    out = set()
+    for t, tag in TAG_OF_TRAIT.items():
+        if re.search(r'\b%s\b' % t, src):
+            out.add(tag)
+            if tag == 'debug':
+                out.add('debugp')
+    return out
+
+
 # ------------------------------------------------------------------ behaviour correspondence (tie B)
 ALL_TAGS = ['eq', 'cmp', 'pcmp', 'hash', 'clone', 'default', 'debug', 'debugp', 'zeroize', 'drop']
 TIEB_TAGS = {
@@ -641,9 +656,14 @@ def check(prop, tier, seed):
         if p['kind'] == 'behaviour' and p['against'] == 'R':
             owned = p['tag'] in TIEB_TAGS.get(prop, [])
         elif p['kind'] == 'behaviour' and p['against'] == 'G':
-            if (p['cfg'], p['case']) not in tieA_cases:
-                model_sem_mismatch.append(p)
-            continue
+            if (p['cfg'], p['case']) in tieA_cases:
+                continue        # the expansions differ on this item: the comparison with Spec (R) decides
+            # The crate-private path produces the model's tokens for this item, yet what the REAL entry points expand to behaves
+            # differently from Sem(Gen) - which the theorems equate with the reference semantics. Sem.v agrees with rustc on the
+            # unchanged tree, so the difference was introduced outside tie A's reach (the proc_macro wrappers) or in Sem.v itself;
+            # either way the property is no longer shown for this input, and the input is the replay.
+            model_sem_mismatch.append(p)
+            owned = p['tag'] in TIEB_TAGS.get(prop, [])
         elif p['kind'] == 'compile' and p.get('scope') == 'crate-option':
             owned = prop in ('C18', 'C19', 'C14')
         elif p.get('scope') == 'extras':
@@ -652,7 +672,7 @@ def check(prop, tier, seed):
         elif p['kind'] == 'compile':
             # an accepted item whose real expansion does not compile: C02's subject, and a failing input for whichever property owns
             # the slice in which the model and the implementation differ on that very item
-            owned = prop == 'C02' or p['case'] in {d['case'] for d in mine}
+            owned = prop == 'C02' or p['case'] in {d['case'] for d in mine} or bool(derived_tags(p.get('src', '')) & set(TIEB_TAGS.get(prop, [])))
         elif p['kind'] == 'abort':
             owned = prop in ('C12', 'C02') or p.get('tag') in TIEB_TAGS.get(prop, [])
         elif p['kind'] == 'cfg-difference':
@@ -735,10 +755,10 @@ def check(prop, tier, seed):
     if dstats:
         print('trait solver (real rustc): %d items, %d `Item<M1, M2>: Trait` answers compared with the documented rule and the model\'s where-clauses, %d must-fail items; %d problems'
               % (dstats['items'], dstats['trait_implemented_answers'], dstats['must_fail_items'], len(dprobs)))
-    if model_sem_mismatch and not violations:
+    if model_sem_mismatch:
         p = model_sem_mismatch[0]
-        print('MODEL-SEMANTICS-MISMATCH (no verdict): Sem.v disagrees with rustc on %s %s tag=%s' % (p['cfg'], p['case'], p['tag']))
-        return 2
+        print('note: the real entry points and Sem(Gen) differ although the crate-private expansion equals the model\'s (%d observations, first: %s %s tag=%s)'
+              % (len(model_sem_mismatch), p['cfg'], p['case'], p['tag']))
     if stats['generator_errors']:
         print('note: %d generated items were not parsable Rust (generator bug, ignored)' % stats['generator_errors'])
     if not violations:
